@@ -4,6 +4,7 @@ package main
 
 import (
 	"fmt"
+	"go/token"
 	"go/types"
 	"hash/crc32"
 	"hash/crc64"
@@ -586,6 +587,12 @@ func init() {
 		fr.i.px.trace = append(fr.i.px.trace, traceEnt{key: key, t: fr.i.ts.termOf(a[1])})
 		return nil
 	})
+	reg(vrtPkg+"Note", func(fr *frame, a []value) value {
+		s, _ := goString(a[0])
+		fr.i.px.noteTexts = append(fr.i.px.noteTexts, s)
+		return nil
+	})
+	reg(vrtPkg+"WaitGoroutineIdle", func(fr *frame, a []value) value { return nil })
 	reg(vrtPkg+"ExpectPanic", func(fr *frame, a []value) value {
 		fr.i.px.expectPanic = mustGoString(fr, a[0], "id")
 		return nil
@@ -1077,6 +1084,31 @@ func init() {
 		}
 		return nil
 	})
+	// sync/atomic on plain integers: the engine is single threaded, the operations are ordinary
+	atomicAdd := func(fr *frame, a []value) value {
+		p := a[0].(*value)
+		if p == nil {
+			rtPanic(fr, "invalid memory address or nil pointer dereference")
+		}
+		*p = binop(fr, token.ADD, nil, *p, a[1])
+		return *p
+	}
+	atomicLoad := func(fr *frame, a []value) value { return *(a[0].(*value)) }
+	atomicStore := func(fr *frame, a []value) value { *(a[0].(*value)) = a[1]; return nil }
+	atomicCAS := func(fr *frame, a []value) value {
+		p := a[0].(*value)
+		if fr.i.px.BranchV(fr, equalsV(fr, nil, *p, a[1])) {
+			*p = a[2]
+			return true
+		}
+		return false
+	}
+	for _, ty := range []string{"Int32", "Int64", "Uint32", "Uint64", "Uintptr"} {
+		reg("sync/atomic.Add"+ty, atomicAdd)
+		reg("sync/atomic.Load"+ty, atomicLoad)
+		reg("sync/atomic.Store"+ty, atomicStore)
+		reg("sync/atomic.CompareAndSwap"+ty, atomicCAS)
+	}
 	reg("(*sync.WaitGroup).Add", noop)
 	reg("(*sync.WaitGroup).Done", noop)
 	reg("(*sync.WaitGroup).Wait", noop)
